@@ -77,6 +77,12 @@ def run(ck: Checker):
     ck.floor('C08.ENDIAN', 11)
     n = R.check_placeholders(ck, 'C08.PLACEHOLDER', [MUL, SQ], size_range=(1, 2, 3), shift_range=(0, 1, 2))
     ck.need(n >= 2, f'only {n} placeholder-using multipliers could be analysed')
+    ck.rule('C07.GADGET', 'compressor gadgets reused by the multipliers satisfy their arithmetic specification (shared with C07)')
+    ck.rule('C07.TRANSPOSE', 'the 2^k-1 block summation used by the POW2_M1 multiplier/squarers regroups block results without truncation (shared with C07)')
+    from .C07 import gadget_rules, transpose_rule
+    den = Denotations(repo)
+    gadget_rules(ck, G.GadgetBench(repo, den))
+    transpose_rule(ck)
     ck.assume('NOT DECIDED: that the returned bits decode to a*b / a^2, the result widths and the Karatsuba thresholds (the core of the statement)')
     ck.assume('summation / subtraction gadgets reused by the multipliers are decided under C07.GADGET and C09.GADGET')
 
